@@ -64,7 +64,7 @@ class NetWorld(World):
     FALSIFIERS = {"C06": C06_OPS, "C07": C07_OPS, "C10": C10_OPS}
     READ_ONLY_OPS = ("dist", "dist_all", "all_pairs", "prepared", "path", "path_multi")
     COMPONENTS = {
-        "real": ["tracklib.core.Network (addEdge, routing forward/backward, prepare, distanceBtwPts)",
+        "real": ["tracklib.core.Network (addEdge, routing forward/backward, prepare, distanceBtwPts, simplify)",
                  "tracklib.core.utils.priority_dict", "tracklib.core.SpatialIndex", "tracklib.algo.mapping",
                  "tracklib.algo.dynamics.HMM", "tracklib.util.geometry", "tracklib.io.NetworkWriter / NetworkReader",
                  "tracklib.core.Track (reverse, +, >) used to chain geometries"],
@@ -105,6 +105,12 @@ class NetWorld(World):
                 # hub mode: few nodes, many parallel edges whose weights decrease in insertion order
                 # (many decrease-key operations and outdated entries in the priority queue)
                 "hub": hub}
+
+    @classmethod
+    def deepen(cls, cfg, r):
+        cfg["nsteps"] = min(cfg["nsteps"] * 2, 200)
+        cfg["max_nodes"] = r.choice([12, 20, 30])
+        cfg["grid"] = r.choice([4, 5, 6])
 
     # ------------------------------------------------------------------- setup
     def setup(self):
